@@ -252,6 +252,33 @@ def report(prop, tier, seed, t0, contracts, results, lemma_recs, validations, sp
             known_hits.append((k, o))
             continue
         violations.append((o, path, confirmed))
+    # an undecided obligation is never reported as a violation on the solver's word; but a failing input found natively
+    # among the contract's probe scenarios is a violation whatever the solver says
+    for o in [x for x in obligations if x["verdict"] == "unknown"]:
+        c = reg.get(o["contract"])
+        if c is None or not hasattr(c, "probes") or n_replayed >= MAX_REPLAYS + 4:
+            continue
+        n_replayed += 1
+        case = [cs for cs in c.cases if repr(cs) == o["case"]][0]
+        os.makedirs(rdir, exist_ok=True)
+        path = os.path.join(rdir, slug(f"{o['contract'].split('.', 2)[-1]}__{o['case']}__{o['name']}__undecided") + ".json")
+        rp = {"property": prop, "contract": o["contract"], "case": o["case"], "obligation": o["name"], "where": o["where"],
+              "solver": {"verdict": "unknown", "backend": o["backend"]}, "note": "obligation undecided by the solvers; failing input searched among the contract's probe scenarios"}
+        try:
+            for pc in c.probes(case):
+                rp["call"] = pc
+                json.dump(rp, open(path, "w"), indent=1)
+                nat = RP.run_native(path)
+                verdict, detail = c.judge_native(I, case, pc, nat) if hasattr(c, "judge_native") else RP.evaluate_post(I, c, case, pc, nat)
+                if verdict == "violates":
+                    rp.update({"native_outcome": nat, "replay_verdict": verdict, "replay_detail": detail, "failing_input_found": True})
+                    json.dump(rp, open(path, "w"), indent=1)
+                    o["verdict"] = "failed"
+                    o["backend"] += "+native-probe"
+                    violations.append((o, path, True))
+                    break
+        except Exception as e:
+            rp["probe_error"] = f"{type(e).__name__}: {e}"
     failed = [o for o in failed if o["verdict"] == "failed"]
     unknown = [o for o in obligations if o["verdict"] == "unknown"]
     proved = [o for o in obligations if o["verdict"] == "proved"]
